@@ -2339,6 +2339,82 @@ func c11r24(c *Ctx, r *Report) {
 	r.floor("per-span LinkEnd calls", n, 2)
 }
 
+// c15r25: the terminal learns the header lines of the input (--header-lines) through Terminal.UpdateHeader. When
+// the input is restarted the coordinator forgets the lines it has collected, and the terminal has to be told as
+// well — a new stream that has no records never sends a header of its own (D95: it was not told: after
+// `reload(true)` the screen kept OLDHEAD-A / OLDHEAD-B above an empty list).
+func c15r25(c *Ctx, r *Report) {
+	l := c.L
+	r.rule("C15-R25", "A (a restart takes the old header lines off the screen)", "P1",
+		"in the closure of Run that restarts the reader, every path from the entry to the call of Reader.restart passes a call of Terminal.UpdateHeader (or a post of EvtHeader) unless it has tested Options.HeaderLines to be zero",
+		"after a reload that yields fewer records than --header-lines, the header rows show lines of the previous input")
+	run := l.Fn("fzf", "Run")
+	rr := l.Fn("fzf", "(*Reader).restart")
+	uh := l.Fn("fzf", "(*Terminal).UpdateHeader")
+	fHL := l.Field("fzf", "Options", "HeaderLines")
+	kH := l.Const("fzf", "EvtHeader")
+	set := l.Fn("util", "(*EventBox).Set")
+	if run == nil || rr == nil || uh == nil || fHL == nil || kH == nil {
+		r.unest("anchors", token.NoPos, nil, "anchors Run / Reader.restart / Terminal.UpdateHeader / Options.HeaderLines / EvtHeader", "cannot resolve")
+		return
+	}
+	vh, _ := constantInt64(kH)
+	n := 0
+	for _, g := range withClosures(run) {
+		var calls []ssa.Instruction
+		eachInstr(g, func(in ssa.Instruction) {
+			// `go reader.restart(...)` or a plain call
+			if staticCallee(in) == rr {
+				calls = append(calls, in)
+			}
+		})
+		if len(calls) == 0 || g == run || len(g.Blocks) == 0 {
+			continue
+		}
+		tells := func(in ssa.Instruction) bool {
+			if staticCallee(in) == uh {
+				return true
+			}
+			if call, ok := in.(*ssa.Call); ok && set != nil && call.Common().StaticCallee() == set && len(call.Call.Args) >= 2 && isConstInt(call.Call.Args[1], vh) {
+				return true
+			}
+			return false
+		}
+		// edges on which HeaderLines is known to be zero are not followed
+		edgeOK := func(from, to *ssa.BasicBlock) bool {
+			iff, ok := from.Instrs[len(from.Instrs)-1].(*ssa.If)
+			if !ok {
+				return true
+			}
+			x, op, k, ok := cmpInt(iff.Cond)
+			if !ok || k != 0 {
+				return true
+			}
+			if f, _ := loadedField(x); f != fHL {
+				return true
+			}
+			switch op {
+			case token.GTR, token.NEQ:
+				return to != from.Succs[1]
+			case token.EQL, token.LEQ:
+				return to != from.Succs[0]
+			}
+			return true
+		}
+		for _, call := range calls {
+			n++
+			start := g.Blocks[0].Instrs[0]
+			hit := pathAvoiding(start, func(in ssa.Instruction) bool { return in == call }, tells, edgeOK)
+			if tells(start) {
+				hit = nil
+			}
+			r.check(hit == nil, fmt.Sprintf("%s:restart #%d clears the header on display", relName(run), n), call.Pos(), g,
+				"Terminal.UpdateHeader precedes Reader.restart", "the reader is restarted without telling the terminal that the collected header lines are gone")
+		}
+	}
+	r.floor("restarts of the reader in Run", n, 1)
+}
+
 func round10(c *Ctx, r *Report, prop string) {
 	switch prop {
 	case "C01":
@@ -2352,6 +2428,7 @@ func round10(c *Ctx, r *Report, prop string) {
 		c06r14(c, r)
 		c06r15(c, r)
 		c06r16(c, r)
+		c15r25(c, r) // the header rows hold records of the current stream only
 	case "C09":
 		c09r20(c, r)
 		c09r21(c, r)
@@ -2384,6 +2461,7 @@ func round10(c *Ctx, r *Report, prop string) {
 		c15r22(c, r)
 		c15r23(c, r)
 		c15r24(c, r)
+		c15r25(c, r)
 	case "C17":
 		c17r28(c, r)
 		c17r29(c, r)
